@@ -54,45 +54,6 @@ def ob_mailbox(ctx, res):
     res.ok(c, "mailbox: one swap(Some(dest)) (in switch, panics on a second switch), %d swap(None) polls, no other access" % n_none)
 
 
-def ob_writer_write(ctx, res):
-    """C12-O1"""
-    fn = ctx.ast.fn(T, "write", impl="as Write")
-    st = fn.body["stmts"]
-    first = strip(st[0]["e"]) if st and st[0].k == "expr_stmt" else None
-    if first is None or up(first) != "self.update()?":
-        res.fail("writerWrite/update-first", fn, "`self.update()?` must be the first statement of write (the mailbox is polled before every write)")
-        return
-    ms = [n for n in walk_no_nested_fn(fn.body) if n.k == "match" and up(strip(n["scrut"])) == "self.buffer_state"]
-    if len(ms) != 1:
-        res.fail("writerWrite/match", fn, "expected one match on self.buffer_state")
-        return
-    arms = {up(a["pat"]).split("(")[0].split("::")[-1]: a for a in ms[0]["arms"]}
-    if set(arms) != {"NotStarted", "InMemory", "Temp", "Real"}:
-        res.fail("writerWrite/arms", ms[0], "write must handle exactly the four buffer states; arms: %s" % sorted(arms))
-        return
-    if "unreachable" not in up(arms["NotStarted"]["body"]):
-        res.fail("writerWrite/notstarted", arms["NotStarted"], "NotStarted must be impossible after update()")
-        return
-    for k in ("InMemory", "Temp", "Real"):
-        b = up(strip(arms[k]["body"]))
-        m = re.fullmatch(r"return (\w+)\.write\((\w+)\)", b)
-        if not m or m.group(2) != fn.params[1][0] or m.group(1) not in up(arms[k]["pat"]):
-            res.fail("writerWrite/%s" % k, arms[k], "%s arm must forward the caller's buffer to the state's writer: `%s`" % (k, b))
-            return
-    res.ok(fn, "write: update()? first; InMemory/Temp/Real forward buf to the current sink; NotStarted unreachable")
-    # flush
-    fl = ctx.ast.fn(T, "flush", impl="as Write")
-    ms = [n for n in walk_no_nested_fn(fl.body) if n.k == "match"]
-    if len(ms) != 1:
-        res.fail("writerFlush/match", fl, "flush must dispatch on the buffer state")
-        return
-    arms = {up(a["pat"]).split("(")[0].split("::")[-1]: up(strip(a["body"])) for a in ms[0]["arms"]}
-    if not (arms.get("Temp", "").endswith(".flush()") and arms.get("Real", "").endswith(".flush()") and arms.get("InMemory") == "Ok(())" and arms.get("NotStarted") == "Ok(())"):
-        res.fail("writerFlush/arms", ms[0], "flush must forward to the temp/real file and be a no-op for memory/not-started; got %s" % arms)
-        return
-    res.ok(fl, "flush forwards to the temp or real file; no-op for in-memory / not started")
-
-
 def _copy_kind(block_text):
     t = block_text.replace(" ", "")
     if re.search(r"\.write_all\(&\w+\)", t):
@@ -102,79 +63,200 @@ def _copy_kind(block_text):
     return None
 
 
+class _Mock:
+    """effects of the staging writer's collaborators over opaque atoms (mailbox, sinks, staged data); I/O operation number `fail_at` fails"""
+    def __init__(self, mailbox, fail_at=None, update_fails=False):
+        self.mailbox = mailbox
+        self.fail_at = fail_at
+        self.update_fails = update_fails
+        self.log = []
+        self.io = 0
+
+    def _io(self, ok):
+        self.io += 1
+        if self.fail_at is not None and self.io == self.fail_at:
+            return ("err", "E")
+        return ("some", ok)
+
+    def method(self, m, recv, args):
+        from ..rules.interp import NotPure
+        if m == "swap" and recv == "MAILBOX" and len(args) == 1:
+            if args[0] is None:
+                self.log.append(("poll",))
+                v, self.mailbox = self.mailbox, None
+                return v
+            self.log.append(("store", args[0]))
+            return None
+        if m == "take" and not args:
+            return recv
+        if m == "update" and isinstance(recv, dict) and not args:
+            self.log.append(("update",))
+            return ("err", "U") if self.update_fails else ("some", ())
+        if m in ("write_all", "write") and len(args) == 1 and isinstance(recv, str):
+            self.log.append((m, recv, args[0]))
+            return self._io(() if m == "write_all" else "N")
+        if m == "seek" and len(args) == 1 and isinstance(recv, str):
+            self.log.append(("seek", recv, args[0]))
+            return self._io(0)
+        if m == "flush" and not args and isinstance(recv, str):
+            self.log.append(("flush", recv))
+            return self._io(())
+        raise NotPure("method %s on %r" % (m, recv))
+
+    def call(self, path, args):
+        if path.endswith("io::copy") and len(args) == 2:
+            self.log.append(("copy", args[0], args[1]))
+            return self._io("n")
+        if path.endswith("tempfile::tempfile") and not args:
+            self.log.append(("tempfile",))
+            return self._io("NEWTEMP")
+        if path.endswith("Vec::with_capacity") or path.endswith("Vec::new"):
+            return "NEWVEC"
+        return NotImplemented
+
+    def binop(self, op, a, b):
+        from ..rules.interp import NotPure
+        if isinstance(a, int) and isinstance(b, int):
+            return {"+": a + b, "-": a - b, "*": a * b}.get(op, 0)
+        raise NotPure("arithmetic")
+
+    def macro(self, n, args):
+        from ..rules.interp import NotPure
+        if n["path"] in ("unreachable", "panic", "unimplemented", "todo"):
+            raise _Panic()
+        raise NotPure("macro " + n["path"])
+
+    def extern(self):
+        return {"None": None, "method": self.method, "call": self.call, "binop": self.binop, "macro": self.macro}
+
+
+class _Panic(Exception):
+    pass
+
+
+def _variant(name, *args):
+    return ("variant", name, list(args))
+
+
+_STATES = {"NotStarted": _variant("NotStarted"), "InMemory": _variant("InMemory", "DATA"), "Temp": _variant("Temp", "TEMPF"), "Real": _variant("Real", "REALF")}
+_START0 = ("variant", "Start", [0])
+
+
+def _show_log(log):
+    return "[" + ", ".join("%s(%s)" % (e[0], ", ".join(str(x[2][0]) if isinstance(x, tuple) and x and x[0] == "variant" and x[2] else str(x) for x in e[1:])) for e in log) + "]"
+
+
+def ob_writer_write(ctx, res):
+    """C12-O1: write()/flush() evaluated over the four buffer states with mocked sinks: the caller's bytes go to the current sink, once, after the mailbox poll"""
+    from ..rules.interp import Interp, NotPure
+    fn = ctx.ast.fn(T, "write", impl="as Write", inline=False)
+    bufn = fn.params[1][0]
+    rows = 0
+    for st, sink in (("InMemory", "DATA"), ("Temp", "TEMPF"), ("Real", "REALF")):
+        for upd_fails in (False, True):
+            mk = _Mock(None, update_fails=upd_fails)
+            me = {"__ref": True, "buffer_state": _STATES[st], "real_file": "MAILBOX", "inmemory": False}
+            try:
+                got = Interp(ctx.ast, T, extern=mk.extern()).call(fn, [me, "BUF"])
+            except _Panic:
+                res.fail("writerWrite/%s" % st, fn, "write panics in state %s" % st)
+                return
+            except NotPure as e:
+                res.undecided("writerWrite/not-evaluable", fn, "write() is outside the fragment the rule evaluates (%s)" % e)
+                return
+            rows += 1
+            if upd_fails:
+                if got != ("err", "U") or mk.log != [("update",)]:
+                    res.fail("writerWrite/update-first", fn, "a failed update() must fail the write before any byte is written; effects %s, result %s" % (_show_log(mk.log), got))
+                    return
+                continue
+            if not mk.log or mk.log[0] != ("update",):
+                res.fail("writerWrite/update-first", fn, "the mailbox must be polled (`self.update()?`) before every write; effects in state %s: %s" % (st, _show_log(mk.log)))
+                return
+            if mk.log[1:] != [("write", sink, "BUF")] or got != ("some", "N"):
+                res.fail("writerWrite/%s" % st, fn, "%s: the caller's buffer must be forwarded once to the state's writer and its result returned; effects %s, result %s" % (st, _show_log(mk.log), got))
+                return
+    res.ok(fn, "write: update()? first; InMemory/Temp/Real forward buf to the current sink exactly once and return its result (%d cases)" % rows)
+    fl = ctx.ast.fn(T, "flush", impl="as Write")
+    for st, want in (("NotStarted", []), ("InMemory", []), ("Temp", [("flush", "TEMPF")]), ("Real", [("flush", "REALF")])):
+        mk = _Mock(None)
+        me = {"__ref": True, "buffer_state": _STATES[st], "real_file": "MAILBOX", "inmemory": False}
+        try:
+            got = Interp(ctx.ast, T, extern=mk.extern()).call(fl, [me])
+        except (_Panic, NotPure) as e:
+            res.undecided("writerFlush/not-evaluable", fl, "flush() not evaluated in state %s (%s)" % (st, e))
+            return
+        if [e for e in mk.log if e[0] != "update"] != want or got != ("some", ()):
+            res.fail("writerFlush/arms", fl, "flush must forward to the temp/real file and be a no-op for memory/not-started; in state %s it does %s -> %s" % (st, _show_log(mk.log), got))
+            return
+    res.ok(fl, "flush forwards to the temp or real file; no-op for in-memory / not started")
+
+
 def ob_writer_update(ctx, res):
-    """C12-O2"""
-    fn = ctx.ast.fn(T, "update")
-    ms = [n for n in walk_no_nested_fn(fn.body) if n.k == "match" and "buffer_state" in up(n["scrut"])]
-    if len(ms) != 1:
-        res.fail("update/match", fn, "expected one match on self.buffer_state")
-        return
-    arms = {up(a["pat"]).split("(")[0].split("::")[-1]: a for a in ms[0]["arms"]}
-    if set(arms) != {"NotStarted", "InMemory", "Temp", "Real"}:
-        res.fail("update/arms", ms[0], "update must handle exactly the four states")
-        return
-    if up(strip(arms["Real"]["body"])) not in ("{}", "()"):
-        res.fail("update/real", arms["Real"], "once Real, update must not touch anything")
-        return
-    for k in ("NotStarted", "InMemory", "Temp"):
-        polls = [c for c in calls(arms[k]["body"], method="swap") if up(strip(c["recv"])).endswith("real_file") and up(strip(c["args"][0])) == "None"]
-        if len(polls) != 1 or cond_ancestors(polls[0]) and cond_ancestors(polls[0])[0][0] is not arms[k]:
-            res.fail("update/%s/poll" % k, arms[k], "%s arm must poll the mailbox exactly once, unconditionally" % k)
-            return
-    # NotStarted: every path assigns buffer_state
-    ns = arms["NotStarted"]["body"]
-    asg = [n for n in walk_no_nested_fn(ns) if n.k == "assign" and up(strip(n["l"])) == "self.buffer_state"]
-    kinds = sorted(re.sub(r"\(.*", "", up(strip(a["r"]))).split("::")[-1] for a in asg)
-    if kinds != ["InMemory", "Real", "Temp"]:
-        res.fail("update/notstarted", arms["NotStarted"], "NotStarted must move to Real (destination present), InMemory or Temp on every path; assigns %s" % kinds)
-        return
-    inner = [n for n in walk_no_nested_fn(ns) if n.k == "match"]
-    if len(inner) != 1 or sorted(up(a["pat"]).split("(")[0] for a in inner[0]["arms"]) != ["None", "Some"]:
-        res.fail("update/notstarted-match", arms["NotStarted"], "NotStarted must decide on the polled mailbox (Some/None)")
-        return
-    for a in inner[0]["arms"]:
-        if up(a["pat"]).startswith("Some") and "BufferState::Real(" not in up(a["body"]):
-            res.fail("update/notstarted-some", a, "a destination found while NotStarted must become the Real state")
-            return
-    # InMemory / Temp: copy with `?` strictly before the state becomes Real; copy is the whole staged content
-    for k, kind in (("InMemory", "mem"), ("Temp", "temp")):
-        b = arms[k]["body"]
-        ifs = [n for n in walk_no_nested_fn(b) if n.k == "if" and strip(n["cond"]).k == "let_expr" and up(strip(n["cond"])["pat"]).startswith("Some(")]
-        if len(ifs) != 1 or ifs[0].get("else") is not None:
-            res.fail("update/%s/if" % k, arms[k], "%s arm must migrate only when the mailbox held a destination (`if let Some(new_file) = ..`)" % k)
-            return
-        th = ifs[0]["then"]
-        dest = up(strip(ifs[0]["cond"])["pat"]["elems"][0]).replace("mut ", "")
-        asg = [n for n in walk_no_nested_fn(th) if n.k == "assign" and up(strip(n["l"])) == "self.buffer_state"]
-        if len(asg) != 1 or up(strip(asg[0]["r"])) != "BufferState::Real(%s)" % dest:
-            res.fail("update/%s/real" % k, th, "after migration the state must become Real(<the destination taken from the mailbox>)")
-            return
-        if _copy_kind(up(th)) != kind:
-            res.fail("update/%s/copy" % k, th, "%s arm must copy the whole staged content (%s) into the destination" % (
-                k, "write_all(&data)" if kind == "mem" else "seek(Start(0)) then io::copy(file, dest)"))
-            return
-        copies = list(calls(th, method="write_all")) + [c for c in walk_no_nested_fn(th) if c.k == "call" and up(c["func"]) == "io::copy"] + list(calls(th, method="seek"))
-        for c in copies:
-            p = c.parent
-            if p is None or p.k != "try":
-                res.fail("update/%s/err" % k, c, "migration I/O result must be propagated with `?`")
-                return
-            if not dominates(c, asg[0]):
-                res.fail("update/%s/order" % k, c, "the staged bytes must be copied BEFORE the state becomes Real (else bytes written next would precede them)")
-                return
-        if kind == "mem":
-            wa = list(calls(th, method="write_all"))[0]
-            data_name = up(arms[k]["pat"]["elems"][0]).replace("ref ", "").replace("mut ", "")
-            if up(strip(wa["args"][0])) != data_name or up(strip(wa["recv"])) != dest:
-                res.fail("update/InMemory/whole", wa, "must write the whole staged vector `%s` to the destination `%s`" % (data_name, dest))
-                return
-        else:
-            cp = [c for c in walk_no_nested_fn(th) if c.k == "call" and up(c["func"]) == "io::copy"][0]
-            fname = up(arms[k]["pat"]["elems"][0]).replace("ref ", "").replace("mut ", "")
-            if up(strip(cp["args"][0])) != fname or up(strip(cp["args"][1])) != dest:
-                res.fail("update/Temp/whole", cp, "must io::copy from the temp file `%s` into the destination `%s`" % (fname, dest))
-                return
-    res.ok(fn, "update: one mailbox poll per non-Real state; NotStarted -> Real|InMemory|Temp on every path; InMemory/Temp copy the whole staged content with `?` strictly before becoming Real; Real untouched")
+    """C12-O2: update() evaluated on (buffer state) x (mailbox empty / holds the destination) x (inmemory) x (which I/O operation fails), effects mocked"""
+    from ..rules.interp import Interp, NotPure
+    fn = ctx.ast.fn(T, "update", inline=False)
+    rows = 0
+    for st in ("NotStarted", "InMemory", "Temp", "Real"):
+        for has_dest in (False, True):
+            for inmem in (False, True):
+                for fail_at in (None, 1, 2, 3):
+                    mk = _Mock(("some", "DEST") if has_dest else None, fail_at=fail_at)
+                    me = {"__ref": True, "buffer_state": _STATES[st], "real_file": "MAILBOX", "inmemory": inmem}
+                    try:
+                        got = Interp(ctx.ast, T, extern=mk.extern()).call(fn, [me])
+                    except _Panic:
+                        res.fail("update/panic", fn, "update panics in state %s" % st)
+                        return
+                    except NotPure as e:
+                        res.undecided("update/not-evaluable", fn, "update() is outside the fragment the rule evaluates (%s)" % e)
+                        return
+                    rows += 1
+                    after = me["buffer_state"]
+                    case = "state %s, mailbox %s, inmemory=%s%s" % (st, "holds the destination" if has_dest else "empty", inmem, "" if fail_at is None else ", I/O operation %d fails" % fail_at)
+                    failed = fail_at is not None and mk.io >= fail_at
+                    if failed:
+                        if got != ("err", "E"):
+                            res.fail("update/%s/err" % st, fn, "migration I/O result must be propagated with `?`: %s -> returns %s" % (case, got))
+                            return
+                        if after[1] == "Real" and st != "Real":
+                            res.fail("update/%s/order" % st, fn, "the state became Real although copying the staged bytes failed (%s): the staged bytes are lost and later writes go to the destination" % case)
+                            return
+                        continue
+                    if got != ("some", ()):
+                        res.fail("update/result", fn, "update must return Ok(()) when nothing failed; %s -> %s" % (case, got))
+                        return
+                    polls = [e for e in mk.log if e[0] == "poll"]
+                    if st == "Real":
+                        if mk.log or after != _STATES["Real"]:
+                            res.fail("update/real", fn, "once Real, update must not touch anything; effects %s" % _show_log(mk.log))
+                            return
+                        continue
+                    if len(polls) != 1 or mk.log[0] != ("poll",):
+                        res.fail("update/%s/poll" % st, fn, "%s arm must poll the mailbox exactly once, first; %s -> %s" % (st, case, _show_log(mk.log)))
+                        return
+                    io = [e for e in mk.log[1:]]
+                    if not has_dest:
+                        if st == "NotStarted":
+                            want_after = _variant("InMemory", "NEWVEC") if inmem else _variant("Temp", "NEWTEMP")
+                            if after != want_after or [e for e in io if e[0] != "tempfile"]:
+                                res.fail("update/notstarted", fn, "NotStarted with no destination yet must start staging (%s); %s -> state %s, effects %s" % (
+                                    "in memory" if inmem else "in a temp file", case, after[1], _show_log(mk.log)))
+                                return
+                        elif after != _STATES[st] or io:
+                            res.fail("update/%s/if" % st, fn, "%s arm must migrate only when the mailbox held a destination; %s -> state %s, effects %s" % (st, case, after[1], _show_log(mk.log)))
+                            return
+                        continue
+                    want_io = {"NotStarted": [], "InMemory": [("write_all", "DEST", "DATA")], "Temp": [("seek", "TEMPF", _START0), ("copy", "TEMPF", "DEST")]}[st]
+                    if io != want_io:
+                        res.fail("update/%s/copy" % st, fn, "%s arm must copy the whole staged content (%s) into the destination, once; %s -> effects %s" % (
+                            st, {"NotStarted": "nothing", "InMemory": "write_all(&data)", "Temp": "seek(Start(0)) then io::copy(file, dest)"}[st], case, _show_log(mk.log)))
+                        return
+                    if after != _variant("Real", "DEST"):
+                        res.fail("update/%s/real" % st, fn, "after migration the state must become Real(<the destination taken from the mailbox>); %s -> %s" % (case, after))
+                        return
+    res.ok(fn, "update evaluated on %d cases: one mailbox poll per non-Real state; NotStarted -> Real|InMemory|Temp; InMemory/Temp copy the whole staged content, and only then become Real; "
+               "a failed copy is returned and leaves the state unmigrated; Real untouched" % rows)
 
 
 def ob_writer_drop(ctx, res):
